@@ -110,7 +110,7 @@ def run_cluster_check(prop, tier, seed, specs, clauses, technique, assumptions, 
     rc = rep.finish()
     import json, os
     for r in rep.results:
-        if r.violations:
+        if r.violations and r.name in table:
             p = os.path.join(core.VERIF, 'replays', prop, 'spec_%s.json' % r.name.replace('/', '_').replace(' ', '_')[:80])
             with open(p, 'w') as f:
                 json.dump(core.jsonable(table[r.name]), f)
